@@ -378,7 +378,10 @@ pub fn run_case_with(gd: &GenDict, mk: &dyn Fn() -> Outcome<vibrato::Dictionary>
                     }
                 }
             }
-            extra = vec![lo, ro, flags];
+            // the statistics themselves (binary64 bit patterns, in the order of the lists): Coq recomputes count / total
+            let lpb: Vec<u64> = lp.iter().map(|x| x.1.to_bits()).collect();
+            let rpb: Vec<u64> = rp.iter().map(|x| x.1.to_bits()).collect();
+            extra = vec![lo, ro, flags, lpb, rpb];
         }
     }
     let sents_t = clist(&sents, sentobs_term);
